@@ -139,11 +139,14 @@ Definition plain_steps (c : gcircuit) (e : gedge) : nat :=
    pass-through, its discrete delay is silently dropped (vectorize=True: whenever ANY unit of the merged source vector has a spread edge).
    fixed_mixed_kinds: false = the code as it is; true = fix D114 (fixes/round8/05_D114.diff) (the two kinds are buffered separately). *)
 Definition fixed_mixed_kinds : bool := true.
+(* D118: a discrete delay of at most one step is neglected per edge (Ring.neglect); time-unit delays <= step_size of spread-less edges
+   under dde_approx are neglected per edge as well — that case is not generated and not modelled (slot_m keeps them) *)
+Definition impl_plain_steps (c : gcircuit) (e : gedge) : nat := neglect (plain_steps c e).
 Definition impl_step (c : gcircuit) (e : gedge) : nat :=
   let g := gkey c (gsrc e) in
   if continuous c then O                                    (* dde_approx: every delay is a kernel *)
   else if group_spread c g && negb fixed_mixed_kinds then O (* the defect: order-0 pass-through *)
-  else if Nat.ltb 1 (list_max (map (plain_steps c) (filter (fun e' => negb (has_spread e')) (ggroup c g)))) then plain_steps c e
+  else if Nat.ltb 1 (list_max (map (impl_plain_steps c) (filter (fun e' => negb (has_spread e')) (ggroup c g)))) then impl_plain_steps c e
   else O.
 Definition spec_step (c : gcircuit) (e : gedge) : nat := if Nat.ltb 0 (gdde c) then O else plain_steps c e.
 Definition impl_steps (c : gcircuit) : list nat := map (impl_step c) (gedges c).
